@@ -103,8 +103,26 @@ def run_dload(chk, rng, ncases):
         chk.tie_broken('correspondence', 'dload', 'model (Model/Loads.v, Corr/LoadDriver.v) does not compile')
     chk.stages['dload'] = dict(cases=len(cases), load_pulse_pairs=nitems, compared=ncmp, disagreements=nbad)
 
+def probe_cases(rng):
+    """three-wire chains in every combination of wire directions (which end of the later wire meets the earlier one),
+    free space and grounded foot: the per-object distributed-load clause is checked for EVERY subset of loaded wires"""
+    import gen
+    P = [[0.0, 0.0, 0.0], [0.3, 0.1, 3.0], [2.2, 0.4, 4.1], [2.5, 2.6, 5.9]]
+    out = []
+    for k in range(8):
+        for ground in (None, []):
+            wires = []
+            for i in range(3):
+                a, b = (P[i], P[i + 1]) if not (k >> i) & 1 else (P[i + 1], P[i])
+                off = 0.0 if ground is not None else 7.0
+                wires.append(gen.wire(4, [a[0], a[1], a[2] + off], [b[0], b[1], b[2] + off], 0.002, tag=i + 1))
+            out.append(dict(id=10 ** 6 + len(out), seed=rng.randrange(10 ** 9), probe=True,
+                            spec=dict(f=20.0, wires=wires, media=ground, family='probe-chain-%d%s' % (k, 'g' if ground is not None else ''),
+                                      tagmode='explicit', sources=[], loads=[])))
+    return out
+
 def run_oracle(chk, rng, ncases):
-    cases = stage_lin.gen_cases(rng, ncases)
+    cases = probe_cases(rng) + stage_lin.gen_cases(rng, ncases)
     shards = [cases[k::NCPU] for k in range(NCPU) if cases[k::NCPU]]
     res = run_workers('dload.oracle', [dict(cases=s) for s in shards])
     n = 0
